@@ -242,6 +242,12 @@ pub fn prop(c: &Case, log: &mut CaseLog) -> Verdict {
             for incl in [true, false] {
                 let resp = s.client.request("textDocument/references", json!({"textDocument": {"uri": uri}, "position": pos, "context": {"includeDeclaration": incl}}), t)?;
                 let got: BTreeSet<Rng> = resp.as_array().map(|v| v.iter().filter_map(|x| json_rng(&x["range"])).filter(|g| !supers.contains(g) && !dead_occ.contains(g)).collect()).unwrap_or_default();
+                // "exactly the occurrences": each of them once
+                let listed: Vec<Rng> = resp.as_array().map(|v| v.iter().filter_map(|x| json_rng(&x["range"])).collect()).unwrap_or_default();
+                let distinct: BTreeSet<Rng> = listed.iter().cloned().collect();
+                if listed.len() != distinct.len() {
+                    return Ok(Verdict::fail("references-listed-more-than-once", format!("{}\nreferences of `{}` (defined at {}:{}), includeDeclaration={}: {:?}", text, d.name, l, col, incl, listed)));
+                }
                 let mut want = uses.clone();
                 if incl {
                     want.insert(to_rng(r, a, b));
@@ -295,15 +301,22 @@ pub fn strategy() -> impl Strategy<Value = Case> {
 pub fn prop_multi(c: &crate::props::c15::MultiCase, log: &mut CaseLog) -> Verdict {
     use crate::props::c15::{multi_project, word_occurrences};
     use std::collections::BTreeSet;
+    if c.import_kind % 5 == 4 {
+        // A file that is imported twice: what it defines exists once per import. The unit tests of mos pin that
+        // find-references keeps those apart (`find_all_references`), while every one of them has its definition at the
+        // same place: the "exactly the occurrences whose go-to-definition is that definition" of the property cannot be
+        // decided for it. (Rename, which has to cover all of them, is held to it in C15.)
+        return Verdict::Discard("file imported twice".into());
+    }
     let proj = multi_project(c);
-    let name = match (c.symbol % 4, c.import_kind % 4) {
+    let name = match (c.symbol % 4, c.import_kind % 5) {
         (2, 3) => "mk1",
         (3, 3) => "ml0",
         (s, _) if s % 2 == 0 => "libk1",
         _ => "libl0",
     };
     let mut occ: Vec<(String, (u64, u64, u64))> = vec![];
-    if c.import_kind % 4 == 3 {
+    if c.import_kind % 5 == 3 {
         // `.import libk1 as mk1, libl0 as ml0`: one symbol under two names. The occurrences are those of the library name
         // in the library, those of the alias in the main file, and the import argument `libk1 as mk1` as a whole (one
         // usage, as the unit tests of mos pin it).
@@ -328,7 +341,7 @@ pub fn prop_multi(c: &crate::props::c15::MultiCase, log: &mut CaseLog) -> Verdic
     let def = occ.iter().find(|(f, _)| f == "lib.asm").cloned().unwrap();
     let coincide = occ.iter().any(|(f, o)| occ.iter().any(|(g, q)| f != g && o == q));
     log.label_if(coincide, "same-range-in-both-files");
-    log.label(format!("import-kind:{}", c.import_kind % 4));
+    log.label(format!("import-kind:{}", c.import_kind % 5));
     log.nontrivial = true;
     let sc = crate::sut::cli::Scratch::new("c16m");
     sc.write("mos.toml", b"[build]\nentry = \"main.asm\"\n");
@@ -379,6 +392,9 @@ pub fn prop_multi(c: &crate::props::c15::MultiCase, log: &mut CaseLog) -> Verdic
                     Some((file_of(l["uri"].as_str()?)?, (rg["start"]["line"].as_u64()?, rg["start"]["character"].as_u64()?, rg["end"]["character"].as_u64()?)))
                 })
                 .collect();
+            if r.as_array().map(|a| a.len()).unwrap_or(0) != got.len() {
+                return Ok(Verdict::fail("references-listed-more-than-once|multi-file", describe(&format!("references requested at {}:{}:{}: {}", f, o.0, o.1 + 1, r))));
+            }
             // highlights: the occurrences in this document
             let r = client.request("textDocument/documentHighlight", json!({"textDocument": {"uri": uri_of(f)}, "position": pos}), t)?;
             let hl: BTreeSet<(u64, u64, u64)> = r
